@@ -311,6 +311,9 @@ func (ex *Exec) decompose(d *Term) (*Term, *Term) {
 	if d.op == "bvmul" && len(d.args) == 2 && d.args[1].IsConst() && signExt(d.args[1].u, 64) == G {
 		return d.args[0], tc.Int64(0)
 	}
+	if d.op == "bvmul" && len(d.args) == 2 && d.args[0].IsConst() && signExt(d.args[0].u, 64) == G {
+		return d.args[1], tc.Int64(0)
+	}
 	// multiples: k*G*x
 	gT := tc.Int64(G)
 	q := tc.SDiv(d, gT)
